@@ -23,22 +23,22 @@ INFO = {
     "C02": ("rapid PBT + exhaustive boundary cross product: kind x value x comparison value x literal spelling, oracle computed by construction (math/big-checked spellings)",
             "generated boundary/spelling cross product with a by-construction oracle",
             "§4 C02"),
-    "C03": ("rapid PBT, metamorphic: outcome of `A and B`, `A or B`, `not A`, De Morgan and double negation against the 3x3 table of the parts' own outcomes; chains of up to 48 operands of planted outcome against the left-to-right fold; left-nested trees 1-14 levels deep against the table applied bottom-up",
+    "C03": ("rapid PBT, metamorphic: outcome of `A and B`, `A or B`, `not A`, De Morgan and double negation against the 3x3 table of the parts' own outcomes; chains of up to 48 operands of planted outcome against the left-to-right fold; left-nested trees 1-14 levels deep against the table applied bottom-up; one evaluator over streams of 300-300000 documents then all outcome patterns",
             "metamorphic relation (composite vs. parts) over generated sub-expressions",
             "§4 C03"),
-    "C04": ("rapid PBT, metamorphic: each negated operator vs. its positive form, contains vs. in, not(...) wrappers, on generated (selector, literal, datum) triples",
+    "C04": ("rapid PBT, metamorphic: each negated operator vs. its positive form, contains vs. in, not(...) wrappers, on generated (selector, literal, datum) triples and on Go values outside the universe (time.Time, IsZero/Len/Equal types, interfaces with methods)",
             "metamorphic relation (operator complements, spelling interchange)",
             "§4 C04"),
-    "C05": ("rapid PBT + exhaustive miss-class cross product: planted absent keys/fields/indices, table oracle, reference interpreter, unknown-value substitution metamorphic",
+    "C05": ("rapid PBT + exhaustive miss-class cross product: planted absent keys/fields/indices, table oracle, reference interpreter, unknown-value substitution metamorphic, confusable selectors (paths that read alike when joined) used together",
             "generated planted-miss cases against the documented table and a substitution metamorphic relation",
             "§4 C05"),
-    "C06": ("rapid PBT: quantifiers over generated collections, reference interpreter plus unrolling into or/and chains, binding/shadowing cases; exhaustive fold over typed primitive collections of length 0-3 against per-element outcomes",
+    "C06": ("rapid PBT: quantifiers over generated collections, reference interpreter plus unrolling into or/and chains, binding/shadowing cases; exhaustive fold over typed primitive collections of length 0-3 against per-element outcomes; long collections with index/element pairing",
             "reference interpreter + unrolling metamorphic relation over generated collections",
             "§4 C06"),
-    "C07": ("rapid PBT, metamorphic: same path in dotted / bracket / backtick / JSON-Pointer spellings must parse to the same path and evaluate identically",
+    "C07": ("rapid PBT, metamorphic: same path in dotted / bracket / backtick / JSON-Pointer spellings must parse to the same path and evaluate identically; confusable selectors used together inside and outside quantifier bodies",
             "metamorphic relation over generated selector spellings",
             "§4 C07"),
-    "C08": ("rapid PBT, two-run non-interference: twin data differing only in hidden/unexported fields must give identical Evaluate and Filter results",
+    "C08": ("rapid PBT, two-run non-interference: twin data differing only in hidden/unexported fields must give identical Evaluate and Filter results; structs of 65-300 fields with hidden fields at drawn positions",
             "non-interference (twin data) over generated struct shapes",
             "§4 C08"),
     "C09": ("exhaustive operator x kind x wrapper x literal matrix plus rapid PBT over the whole reflect universe; plus Go values outside the universe (interfaces with methods as map keys/elements/fields, library types); invariant: no panic, error implies false",
@@ -47,16 +47,16 @@ INFO = {
     "C10": ("exhaustive token sequences, rapid byte strings/mutations, long shapes, hostile constants, unbudgeted entry-point agreement on 10^5..10^6-step inputs, native go fuzzing (thorough), concurrent schedules of generated parse jobs compared with their sequential outcomes; invariant: no panic, evaluator xor error, Parse agrees, tree dumps and evaluator evaluates",
             "enumeration + random mutation + coverage-guided fuzzing with a totality invariant",
             "§4 C10"),
-    "C11": ("rapid PBT + pathological nesting sweep: budgets around the measured step count N (hook) and geometric sweep; exactness, monotonicity, step bound; the same law for jobs run in 2-8 goroutines at once",
+    "C11": ("rapid PBT + pathological nesting sweep: budgets around the measured step count N (hook) and geometric sweep; exactness, monotonicity, step bound; the same law for jobs run in 2-8 goroutines at once; inputs of 10^6-4x10^7 steps (70000-operand chains)",
             "generated (input, budget) pairs against the threshold measured through the ExprCnt hook",
             "§4 C11"),
-    "C12": ("rapid PBT under the Go race detector: fresh shared evaluator/filter, k goroutines, results compared with sequential results; concurrent creation from never-used texts (valid, invalid, budgeted) compared with creation afterwards",
+    "C12": ("rapid PBT under the Go race detector: fresh shared evaluator/filter, k goroutines, results compared with sequential results; concurrent creation from never-used texts (valid, invalid, budgeted) compared with creation afterwards; cold start: each case in a fresh child process whose first calls are concurrent",
             "race-detector run of generated concurrent histories + sequential-equivalence oracle",
             "§4 C12"),
-    "C13": ("rapid stateful PBT: call histories on one evaluator/filter (incl. the caller updating the datum in place between calls) compared call-by-call with fresh instances and with the history-free reference interpreter; datum snapshots before/after; result aliasing; Expression() round trip, incl. families of evaluators whose texts differ only in layout",
+    "C13": ("rapid stateful PBT: call histories on one evaluator/filter (incl. the caller updating the datum in place between calls) compared call-by-call with fresh instances and with the history-free reference interpreter; datum snapshots before/after; result aliasing; Expression() round trip, incl. families of evaluators whose texts differ only in layout; histories of up to 300000 calls; declared container types",
             "stateful model-based PBT (fresh-instance model) with deep snapshots",
             "§4 C13"),
-    "C14": ("rapid PBT with repetition: order-sensitive map quantifiers/filters evaluated r=200 times and on rebuilt data; all outcomes identical",
+    "C14": ("rapid PBT with repetition: order-sensitive map quantifiers/filters evaluated r=200 times and on rebuilt data; all outcomes identical; maps holding several views of one object",
             "repetition of generated order-sensitive cases (determinism invariant)",
             "§4 C14"),
     "C15": ("exhaustive token sequences + rapid grammar renderings and mutations, differential against an independent hand-written PEG recogniser/AST builder; concurrent schedules of parses compared with their sequential outcomes",
@@ -65,7 +65,7 @@ INFO = {
     "C16": ("rapid PBT round trip: render(own AST, all layouts) -> grammar.Parse == expected AST; literal fidelity by evaluation on {X: s}; round trips run in 4-8 goroutines at once",
             "print-then-parse round trip over generated trees and strings",
             "§4 C16"),
-    "C17": ("rapid PBT: Filter.Execute compared element-wise with a separate evaluator; type, order, identity, error, purity, idempotence, partition",
+    "C17": ("rapid PBT: Filter.Execute compared element-wise with a separate evaluator; type, order, identity, error, purity, idempotence, partition; containers of up to 70000 elements",
             "element-wise differential + algebraic laws over generated containers",
             "§4 C17"),
     "C18": ("rapid PBT: option multisets/permutations; permutation invariance, last-wins, neutral settings, hook effect vs reference interpreter",
